@@ -436,4 +436,16 @@ theorem procUploads_append_idle (xs : List Xfer) (x : Xfer) (hp : x.procUpload =
     countP Xfer.procUpload (xs ++ [x]) = countP Xfer.procUpload xs := by
   simp [countP_append, hp]
 
+/-- symmetric reading of a `Pairwise` fact -/
+theorem forall_of_pairwise {α} {R : α → α → Prop} (hsymm : ∀ a b, R a b → R b a) :
+    ∀ {l : List α}, l.Pairwise R → ∀ a ∈ l, ∀ b ∈ l, a ≠ b → R a b
+  | [], _, a, ha, _, _, _ => by simp at ha
+  | x :: l, h, a, ha, b, hb, hne => by
+    rw [pairwise_cons] at h
+    rcases mem_cons.mp ha with rfl | ha' <;> rcases mem_cons.mp hb with rfl | hb'
+    · exact absurd rfl hne
+    · exact h.1 b hb'
+    · exact hsymm _ _ (h.1 a ha')
+    · exact forall_of_pairwise hsymm h.2 a ha' b hb' hne
+
 end AioslskVerif.Sched
